@@ -142,6 +142,13 @@ fn case(t: &mut Tape, info: &mut CaseInfo) -> Result<(), String> {
         }
         p = s.on_performance(p, target);
     }
+    // `difficulty(d)` replaces every earlier setting: setters first, then a Difficulty, equals the Difficulty alone
+    for (name, repl) in [("an empty Difficulty", Difficulty::new()), ("a Difficulty with only mods", Difficulty::new().mods(setters.iter().find_map(|s| if let Setter::Mods(m) = s { Some(m.build(target)) } else { None }).unwrap_or_default()))] {
+        let after_setters = score.apply(p.clone().difficulty(repl.clone())).calculate();
+        let alone = score.apply(perf_for_mode(&map, target).difficulty(repl)).calculate();
+        same(&format!("Performance::<setters>.difficulty({name}) vs Performance::difficulty({name})"), &after_setters, &alone)?;
+        info.comparisons += 1;
+    }
     let via_setters = score.apply(p).calculate();
     let via_difficulty = score.apply(perf_for_mode(&map, target).difficulty(d_honoured.clone())).calculate();
     same("Performance::<setters> vs Performance::difficulty(Difficulty::<setters>)", &via_setters, &via_difficulty)?;
@@ -323,7 +330,7 @@ pub fn property() -> Property {
         id: "C18",
         subchecks: vec![SubCheck {
             name: "setters-equivalence",
-            rule: "G-MAP (all modes + converts, <=25 objects) x a generated list of 1-8 setter applications (mods in any representation, passed_objects, clock_rate incl. 0/-1/inf/1e300, ar/cs/hp/od with both flags incl. +-inf and far out of range, hardrock_offsets, lazer) x score spec x a generated permutation. Oracle: (a) Performance::<setters> == Performance::difficulty(Difficulty::<setters>) on all fields; (b) any order of independent setters gives an == Difficulty and equal results, repeated setters: last wins; (c) inspect().into_difficulty() and InspectDifficulty::from round-trip to an == Difficulty, and an InspectDifficulty filled in by hand with the raw unclamped values converts to the same Difficulty as the setter chain; (d) inspect() shows clamp(clock,0.01,100) / clamp(value,-20,20) and results equal those of the clamped value; (e) setters documented as irrelevant for the mode (Difficulty/Performance ar+cs for taiko/mania, hardrock_offsets outside catch, lazer for taiko/catch; score setters combo for mania, n50 for taiko, n_katu/n_geki/tick setters outside their modes, priority for catch) leave results untouched; (f) the same Difficulty handed to GradualDifficulty / GradualPerformance: their last value's difficulty attributes equal the one-shot result (open taiko class skipped). Non-trivial: >=3 distinct setter kinds and an out-of-range value or an irrelevant setter.",
+            rule: "G-MAP (all modes + converts, <=25 objects) x a generated list of 1-8 setter applications (mods in any representation, passed_objects, clock_rate incl. 0/-1/inf/1e300, ar/cs/hp/od with both flags incl. +-inf and far out of range, hardrock_offsets, lazer) x score spec x a generated permutation. Oracle: (a) Performance::<setters> == Performance::difficulty(Difficulty::<setters>) on all fields; (a') setters followed by difficulty(D') equal difficulty(D') alone (the Difficulty replaces every earlier setting); (b) any order of independent setters gives an == Difficulty and equal results, repeated setters: last wins; (c) inspect().into_difficulty() and InspectDifficulty::from round-trip to an == Difficulty, and an InspectDifficulty filled in by hand with the raw unclamped values converts to the same Difficulty as the setter chain; (d) inspect() shows clamp(clock,0.01,100) / clamp(value,-20,20) and results equal those of the clamped value; (e) setters documented as irrelevant for the mode (Difficulty/Performance ar+cs for taiko/mania, hardrock_offsets outside catch, lazer for taiko/catch; score setters combo for mania, n50 for taiko, n_katu/n_geki/tick setters outside their modes, priority for catch) leave results untouched; (f) the same Difficulty handed to GradualDifficulty / GradualPerformance: their last value's difficulty attributes equal the one-shot result (open taiko class skipped). Non-trivial: >=3 distinct setter kinds and an out-of-range value or an irrelevant setter.",
             quick: 10_000,
             thorough: 200_000,
             tape_len: 1300,
